@@ -111,3 +111,12 @@ func (b *B) GoodAddViaReady(w []byte) error {
 	b.n++
 	return nil
 }
+
+// BadRuneWalk is the control for BYTEWISE: it walks a word rune by rune.
+func BadRuneWalk(word string) int {
+	n := 0
+	for _, r := range word {
+		n += int(byte(r))
+	}
+	return n
+}
